@@ -65,6 +65,9 @@ def get(t, key):
             if k == key: return v
     return None
 
+def has(t, key):
+    return isinstance(t, Obj) and any(k == key for k, _ in t)
+
 def dumps(t):
     k = kind(t)
     if k == 'obj': return '{' + ','.join(json.dumps(key, ensure_ascii=False) + ':' + dumps(v) for key, v in t) + '}'
